@@ -3,6 +3,19 @@
 package aggregator
 
 /*@
+// which aggregates get their input converted to a number first: the numeric ones (sum, avg, min, max, count, the
+// deviations and variances, median, percentile) do; collect, merge_agg, deduplicate and last_value take the value as it
+// is, and so do analytic functions
+func (*GroupAggregator).isNumericAggregator
+  props C03 C01 C04 C07 C09
+  option assumed_frame
+  observe known := Get#1
+  observe kind := GetType
+  atreturn the-numeric-aggregates-have-their-input-converted: $known && $kind == "aggregation" && (aggType == "sum" || aggType == "avg" || aggType == "min" || aggType == "max" || aggType == "count" || aggType == "stddev" || aggType == "median" || aggType == "percentile" || aggType == "var" || aggType == "vars" || aggType == "stddevs") ==> result
+  atreturn the-aggregates-that-take-any-value-do-not: $known && $kind == "aggregation" && (aggType == "collect" || aggType == "merge_agg" || aggType == "deduplicate" || aggType == "last_value") ==> !result
+  atreturn analytic-functions-take-the-value-as-it-is: $known && $kind == "analytical" ==> !result
+  atreturn math-functions-need-numbers: $known && $kind == "math" ==> result
+
 func (*GroupAggregator).shouldAllowNullValues
   props C03 C01 C04 C07 C09
   ensures explicit-null-reaches-first-and-last-value-only: result <==> (aggType == "first_value" || aggType == "last_value")
